@@ -138,7 +138,9 @@ def run_once(p, cfg, L=None, checkpoint=None, x0=None, callback_kind=None, extra
         kw["gtol"] = gt
     if extra:
         kw.update(extra)
-    x0 = np.array(p["x0"] if x0 is None else x0, dtype=float)
+    # an array given by the caller is handed over as it is (the way a user would: aliasing, read-only flags and in-place
+    # modifications by the package must stay observable); the battery's own start vector is copied
+    x0 = x0 if isinstance(x0, np.ndarray) else np.array(p["x0"] if x0 is None else x0, dtype=float)
     rec = dict(L=L, states=states, counters=counters, cfg=cfg, checkpoint=checkpoint, exc=None, res=None)
     keep_errstate = kw.pop("_keep_errstate", False)
     try:
@@ -356,10 +358,14 @@ def _single_one(c, name, p, out):
             jx = None
             if c.get("jac_mode"):
                 jx = dict(jac=None if c["jac_mode"] == "none" else c["jac_mode"])
+            ck_before = snap(ck_obj) if ck_obj is not None else None
             rec = run_once(p, dict(cfg), L=L2, checkpoint=copy.deepcopy(ck_obj) if ck_obj is not None else None,
                            x0=ck_obj.x if ck_obj is not None else None, callback_kind=cbk, extra=jx)
             bad = audit(rec, p, c["maxiter"], c["maxfun"], gtol, ftarget=ft, ck=ck, ftarget_callable=c.get("ftarget_kind") == "callable",
                         gtol_callable=c.get("gtol_kind") == "callable", maxcor=cfg["maxcor"], history=history, callable_grad=not c.get("jac_mode"))
+            if ck_before is not None and _same_state(ck_before, snap(ck_obj), fields=("x", "fun", "jac", "nfev", "njev", "nit", "sk", "yk"), tol=0.0):
+                # the user restarted with x0=result.x: the earlier result of the chain must still describe its own point
+                bad["C05.earlier_result_of_the_chain_untouched"] = "the restart modified the result it was started from: %s" % ("; ".join(_same_state(ck_before, snap(ck_obj), fields=("x", "fun", "jac", "nfev", "njev", "nit", "sk", "yk"), tol=0.0))[:300])
             if cbk not in (None, "false") and rec["res"] is not None and rec["res"].message == MSG["CALLBACK"] and not rec["states"]:
                 bad["C04.callback_message_true"] = "callback message without a callback call"
             out.append(dict(problem=name, ftarget=ft, callback=cbk, violated=bad,
@@ -756,6 +762,21 @@ def scenario_scaler(c):
                         bad.setdefault("C17.same_result_as_scaled_objective", "start at a stationary point, s=%g: %s" % (s, "; ".join(d)[:300]))
                     if len(callsX) != 1:
                         bad.setdefault("C17.scaler_called_once_with_start_point_and_unscaled_gradient", "start at a stationary point: scaler invoked %d times" % len(callsX))
+        # a curvature threshold (eps_SY) that matters: pairs of an ordinary run have s.y/y.y = r; with s = 4 (0.25) and
+        # eps_SY = r_min/1.5 (1.5 r_min) the scaled problem sees r/s, just below (above) the threshold
+        if not c.get("jac"):
+            P0 = run_once(p, dict(base, maxiter=K + 2, maxcor=8, gtol=1e-12))
+            if P0["exc"] is None and P0["snap"]["sk"].size:
+                r0 = np.einsum("ij,ij->i", P0["snap"]["sk"], P0["snap"]["yk"]) / np.einsum("ij,ij->i", P0["snap"]["yk"], P0["snap"]["yk"])
+                r0 = r0[r0 > 0]
+                for s, eps_ in ((4.0, float(r0.min()) / 1.5), (0.25, 1.5 * float(r0.min()))) if r0.size else ():
+                    SE = run_once(p, dict(base, maxiter=K + 2, maxcor=8, gtol=1e-12, eps_SY=eps_), callback_kind="false", extra=dict(gradient_scaler=lambda x, g, l_, u_, _s=s: _s))
+                    EE = run_once(p, dict(base, maxiter=K + 2, maxcor=8, gtol=1e-12, eps_SY=eps_), L=Logged(p, scale_obj=s), callback_kind="false")
+                    if SE["exc"] or EE["exc"]:
+                        continue
+                    d = _same_state(SE["snap"], EE["snap"], fields=("x", "fun", "jac", "nfev", "njev", "nit", "sk", "yk", "message"), tol=1e-9)
+                    if d:
+                        bad.setdefault("C17.same_result_as_scaled_objective", "eps_SY=%g, s=%g: %s" % (eps_, s, "; ".join(d)[:300]))
         # target tested on the unscaled value
         fstart = float(p["f"](np.clip(p["x0"], lb, ub)))
         ft = fstart - 1e-3 * (1 + abs(fstart))
